@@ -605,7 +605,7 @@ DROP_OK = {
 
 def check_drop_table(ctx, R, classes):
     """who-may-drop rule, on event paths: a release whose value carries a take tag (it came out of a container of the node)
-    and that no emission of that value / of that container's content precedes is a *drop*.  Drops are allowed only at the sites
+    on a path that has emitted nothing before it is a *drop*.  Drops are allowed only at the sites
     of DROP_OK; a path on which the element's processing raised is not a drop (NO-REL-ON-FAIL judges those)."""
     R.table('DROP_OK', {'%s.%s' % k: v for k, v in DROP_OK.items()})
     for cls in classes:
@@ -623,9 +623,9 @@ def check_drop_table(ctx, R, classes):
                     if not takes:
                         continue
                     n += 1
-                    fields = {'field:' + t[5:].split('@')[0] for t in takes}
-                    emitted = any(x.kind == 'EM' and x.b and not isinstance(x.b, (bool, str)) and ((takes | fields) & set(x.b))
-                                  for x in evs[:i])
+                    # (any emission on the path counts: what exactly a helper-built emission carries is not traced here -
+                    # META-MEMBERS / PAIRED-BUFFER decide that - a *drop* is a release on a path that emitted nothing at all)
+                    emitted = any(x.kind == 'EM' for x in evs[:i])
                     failed = any(x.kind == 'EXC' for x in evs[:i])
                     if not emitted and not failed and drop is None:
                         drop = (e, evs)
